@@ -86,18 +86,8 @@ def parent_map(root):
     return pm
 
 
-def run(ctx):
-    fs = facts.load("core", "rel")
-    repo = fs["pest_typed"]
-    rel = fs["pest_typed.rel"]
-    world = nodes.World(fs, ["pest_typed"])
-    ctx.analysed = {"crates": ["pest_typed (debug assertions on)", "pest_typed (debug assertions off)"]}
-    rg = ctx.rule("R08-GET", "for each Input impl: get() slices input from the cursor field up to exactly end(); byte_offset()/cursor() "
-                             "denote that field; at_start/at_end compare byte_offset() with start()/end(); SOI/EOI use those tests")
-    rb = ctx.rule("R08-BOUND", "in Input's methods the parent string (input()) only flows to position construction, debug assertions, or a "
-                               "slice bounded above by end(); everything that decides a match derives from get()")
-    rc = ctx.rule("R08-CONV", "AsInput conversions: &str/&String start at 0 of the string; Position: start = cursor = pos; "
-                              "Span: start = cursor = span.start, end = span.end, input = the span's input")
+def get_rule(rg, repo, rel):
+    """R08-GET instances for every Input impl in both build profiles, and the default at_start / at_end tests."""
     impls = [nodes.Impl(repo, it) for it in repo.impls() if it.get("trait") == INPUT_TRAIT]
     for im in impls:
         key = "Input for " + im.self_ty
@@ -153,6 +143,22 @@ def run(ctx):
                 d2 = descr(repo, tail_of(repo.body(im.methods[nm])["value"]))
                 if d2 not in want:
                     rg.violate("%s::%s" % (im.self_ty, nm), "overrides %s with %s" % (nm, d2), im.loc)
+    return impls
+
+
+def run(ctx):
+    fs = facts.load("core", "rel")
+    repo = fs["pest_typed"]
+    rel = fs["pest_typed.rel"]
+    world = nodes.World(fs, ["pest_typed"])
+    ctx.analysed = {"crates": ["pest_typed (debug assertions on)", "pest_typed (debug assertions off)"]}
+    rg = ctx.rule("R08-GET", "for each Input impl: get() slices input from the cursor field up to exactly end(); byte_offset()/cursor() "
+                             "denote that field; at_start/at_end compare byte_offset() with start()/end(); SOI/EOI use those tests")
+    rb = ctx.rule("R08-BOUND", "in Input's methods the parent string (input()) only flows to position construction, debug assertions, or a "
+                               "slice bounded above by end(); everything that decides a match derives from get()")
+    rc = ctx.rule("R08-CONV", "AsInput conversions: &str/&String start at 0 of the string; Position: start = cursor = pos; "
+                              "Span: start = cursor = span.start, end = span.end, input = the span's input")
+    impls = get_rule(rg, repo, rel)
     for key, pid, cid, loc, im in world.twin_pairs():
         p = im.self_adt()[0]
         if p in ("pest_typed::predefined_node::SOI", "pest_typed::predefined_node::EOI"):
@@ -222,6 +228,22 @@ def run(ctx):
                 rb.inst(k2, repo.loc(n.get("sp")), "ok: " + ok)
             else:
                 rb.violate(k2, why + " — text at or beyond the end of a Span sub-input can influence the match", repo.loc(n.get("sp")))
+    # a Position of the parent string has no end bound: the matching primitives must not go through it
+    PRIMS = ("match_string", "match_insensitive", "skip_until", "skip", "match_range", "match_char_by", "next", "chars")
+    for fid in sorted(f for f in fns):
+        short = fid.rsplit("::", 1)[-1]
+        if short not in PRIMS:
+            continue
+        b = repo.body(fid)
+        if b is None:
+            continue
+        for n in walk(b["value"]):
+            c = n.get("callee")
+            if c and strip_generics(c["path"]) in (M + "as_position", "pest_typed::position::Position::from_start",
+                                                   "pest_typed::position::Position::new", "pest_typed::position::Position::new_unchecked"):
+                rb.violate("Input::%s: goes through a Position" % short,
+                           "a matching primitive builds a Position of the parent string (%s): it forgets end(), so text beyond a Span "
+                           "sub-input can be matched" % strip_generics(c["path"]).rsplit("::", 1)[-1], repo.loc(n.get("sp")))
     # match-deciding reads derive from get(): every starts_with / eq_ignore_ascii_case / chars() / bytes compare receiver
     DECIDE = ("starts_with", "eq_ignore_ascii_case", "chars", "as_bytes")
     for fid in sorted(f for f in fns if f.startswith(M)):
